@@ -12,6 +12,8 @@ import vlib
 
 VERIF = vlib.VERIF
 OUT = os.path.join(VERIF, 'out')
+# the evidence directory describes runs against /repo; a developer run against another tree (VERIF_REPO) must not touch it
+EVID_DIR = os.path.join(VERIF, 'evidence') if vlib.REPO == '/repo' else os.path.join(OUT, 'evidence_other_tree')
 
 ALL = ['P_T', 'P_TA', 'P_N', 'F_T', 'F_TA', 'F_N', 'V_T', 'V_TA', 'V_N', 'M_T', 'M_NA', 'VV_T']
 VARYING = ['V_T', 'V_TA', 'V_N', 'M_T', 'M_NA', 'VV_T']
@@ -348,8 +350,8 @@ def run_c20(tier, seed):
                        'cells_not_well_formed': [[c, ak, g] for c, ak, g, _ in bad]},
           'assumptions': ['C++17, clang++ 14 with libstdc++ 12; the operation groups are those of harness/driver.hpp'],
           'wall_s': round(time.time() - t0, 1), 'violations': len(bad)}
-    os.makedirs(os.path.join(VERIF, 'evidence'), exist_ok=True)
-    json.dump(ev, open(os.path.join(VERIF, 'evidence', 'C20.json'), 'w'), indent=1)
+    os.makedirs(EVID_DIR, exist_ok=True)
+    json.dump(ev, open(os.path.join(EVID_DIR, 'C20.json'), 'w'), indent=1)
     print('C20 %s: %d cells, %d not well-formed, %.0f s' % (tier, len(cells) * len(vlib.GROUPS), len(bad), time.time() - t0))
     return 1 if bad else 0
 
@@ -491,8 +493,8 @@ def run_c15(tier, seed):
           'assumptions': ['type pairs and source forms are those of spec/Sources.tla / harness/sources.hpp',
                           'clang++ -std=c++17 and g++ -std=c++20 ASan/UBSan builds (the C++20 build takes the std::ranges paths of detail/memory.hpp), std::allocator'],
           'wall_s': round(time.time() - t0, 1), 'violations': nviol}
-    os.makedirs(os.path.join(VERIF, 'evidence'), exist_ok=True)
-    json.dump(ev, open(os.path.join(VERIF, 'evidence', 'C15.json'), 'w'), indent=1)
+    os.makedirs(EVID_DIR, exist_ok=True)
+    json.dump(ev, open(os.path.join(EVID_DIR, 'C15.json'), 'w'), indent=1)
     if infra:
         for m in infra[:10]:
             print('INFRASTRUCTURE:', m)
@@ -628,8 +630,8 @@ def run_c19(tier, seed):
           'assumptions': ['TSan is dynamic: races are reported only on executed accesses', 'std::string payloads live on the '
                           'global heap and are not write-protected in the mprotect leg'],
           'wall_s': round(time.time() - t0, 1), 'violations': nviol}
-    os.makedirs(os.path.join(VERIF, 'evidence'), exist_ok=True)
-    json.dump(ev, open(os.path.join(VERIF, 'evidence', 'C19.json'), 'w'), indent=1)
+    os.makedirs(EVID_DIR, exist_ok=True)
+    json.dump(ev, open(os.path.join(EVID_DIR, 'C19.json'), 'w'), indent=1)
     shutil.rmtree(d, ignore_errors=True)
     print('C19 %s: %d interleavings x 3 vector types under TSan, mprotect leg, %d-thread free run; %d events judged, %d divergent, %.0f s'
           % (tier, len(scheds), nthreads_free, events, nviol, time.time() - t0))
@@ -808,7 +810,7 @@ def run_property(pid, tier, seed):
 
 def write_evidence(pid, tier, seed, results, findings, nviol, lost, wall):
     prop = PROPS[pid]
-    os.makedirs(os.path.join(VERIF, 'evidence'), exist_ok=True)
+    os.makedirs(EVID_DIR, exist_ok=True)
     good = [(k, r) for k, r in results if not r.get('build_failed')]
     per_action = {}
     for k, r in good:
@@ -853,7 +855,7 @@ def write_evidence(pid, tier, seed, results, findings, nviol, lost, wall):
                           'only the instantiated parameter lists of harness/configs.json are bound to the code',
                           'ASan/UBSan build of the driver (clang++ -O1), value types of harness/values.hpp'],
           'wall_s': round(wall, 1), 'violations': nviol}
-    json.dump(ev, open(os.path.join(VERIF, 'evidence', pid + '.json'), 'w'), indent=1)
+    json.dump(ev, open(os.path.join(EVID_DIR, pid + '.json'), 'w'), indent=1)
 
 
 def replay(pid, path):
